@@ -110,8 +110,10 @@ struct WebSocketFrame
       frame.maskKey[3] = data[pos++];
     }
 
-    // Payload
-    if (data.size() < pos + payloadLen)
+    // Payload. `pos <= data.size()` holds here (every header read above was
+    // bounds-checked), so compare by subtraction: `pos + payloadLen` wraps for a
+    // declared 64-bit length near 2^64 and would let resize() below throw.
+    if (data.size() - pos < payloadLen)
     {
       return std::nullopt; // incomplete
     }
